@@ -77,7 +77,7 @@ _p("C07",
    not_covered=[
        "equality of the filter mean with the textbook recurrence, symmetric positive-definiteness of the covariance, Mahalanobis distance value (nalgebra f32 10x10 products / Cholesky)",
        "stationary prediction for the box filter (measured: CBMC no answer in 600 s at unwind 101)"])
-_p("C08",
+_p("C08", probes_quick=["bbox_geometry_c08"],
    level_text=PROOF_TEXT + "Decides the structural clauses of C08: IoU absent exactly when the intersection is 0 or a side is missing; the oriented intersection is 0 for pre-filtered pairs and otherwise the clipper's area unchanged; the axis-aligned closed form is exactly 0 without positive overlap and never negative/NaN.",
    level_note="intersection / too_far / clipper are recording stubs in the callers' harnesses. NOT covered: exactness for rotated boxes, rigid-motion invariance, IoU range/symmetry as numbers, soundness of the too_far pre-filter (trigonometry, geo area in f64).",
    technique="Kani proof harnesses with recording stubs on the real functions",
@@ -132,12 +132,13 @@ _p("C20", level="proof",
 
 BOUNDED_TEXT = ("Bounded stand-in only (never counted as proved): the property is the postcondition of a function that neither installed verifier can take "
                 "(reason in level_note); that postcondition is evaluated on the real code, compiled with the repository's own toolchain, over the stated finite input space. ")
-_p("C10", level="other", engine="probe (bounded stand-in)", probes_quick=["distances_c10"],
-   level_text=BOUNDED_TEXT + "Decides, for the explored store contents and whatever worker schedule occurs, the sequential contract of the distance queries: exactly one result per observation pair the metric values, over the stored tracks compatible with the candidate (ready ones only when requested), never a track with itself, missing feature class reported on the error stream, owned query leaves the store unchanged.",
-   level_note="foreign_track_distances/owned_track_distances run in the store's worker threads (crossbeam channels, Arc<Vec<Mutex<HashMap>>>): Kani has no threads and ICEs on TrackStore::new, Verus cannot state the effect on &self. NOT covered: independence from the worker schedule (no per-call contract quantifies over interleavings) and the pairs among owned candidates themselves, which depend on whether a worker runs before the tracks are put back.",
-   technique="bounded check of the function's postcondition on the real code (no verifier reaches worker threads)",
-   explanation="every deciding obligation is a bounded stand-in: the contract of the distance queries evaluated on 300 pseudo-random store contents x shard counts 1..=4 x both only_baked settings x two feature classes on the real threaded store; schedule independence is not decided",
-   not_covered=["schedule independence (multiset equality across worker interleavings)", "results among owned candidates themselves (race between the workers and the re-insertion)"])
+_p("C10", probes_quick=["distances_c10"],
+   level_text=PROOF_TEXT + "Decides, for all tracks and every metric, the decision skeleton of Track::distances (incompatible attributes are refused with the error the store drops silently, a missing feature class on either side is reported as an error, otherwise at most one result per observation pair, all from the candidate to the other track). The store-level clauses (exactly the valued pairs over the compatible / ready stored tracks, never a track with itself, error stream, owned query leaves the store unchanged) are the bounded stand-in distances_c10 on the real threaded store.",
+   level_note="Track::distances via verbatim extract; the pairwise metric pipeline (itertools::cartesian_product + flat_map over the user metric) is an ASSUMED stand-in. foreign_track_distances/owned_track_distances run in the store's worker threads (crossbeam channels, Arc<Vec<Mutex<HashMap>>>): Kani has no threads and ICEs on TrackStore::new, Verus cannot state the effect on &self: bounded probe only. NOT covered: independence from the worker schedule (no per-call contract quantifies over interleavings) and the pairs among owned candidates themselves, which depend on whether a worker runs before the tracks are put back.",
+   technique="Verus postconditions on the verbatim extract of Track::distances + bounded check of the store queries' postcondition on the real code",
+   assumptions=V,
+   not_covered=["schedule independence (multiset equality across worker interleavings)", "results among owned candidates themselves (race between the workers and the re-insertion)",
+                "store-level exactness: bounded probe only"])
 _p("C14", level="other", engine="probe (bounded stand-in)", probes_quick=["nms_c14"],
    level_text=BOUNDED_TEXT + "Decides the contract of nms() - subset of the score/validity filter, decreasing rank, top-ranked kept, no kept box covered above the threshold by a higher-ranked kept box, every dropped box so covered by a kept higher-ranked box, idempotence - for every list of 0..=4 boxes over a 12-box alphabet and 1500 longer lists.",
    level_note="nms(): for-loops with `continue` and .iter().enumerate() are rejected by Verus 0.2026.09.13 (probed), the filter/map/sorted_by pipelines are iterator adapters with closures, and one HashSet operation costs minutes in CBMC (2-box probe: no answer in 420 s). Coverage fractions are computed with the library's own intersection()/area() (their exactness is C08).",
